@@ -97,13 +97,19 @@ def run(prop, tier, seed, opts):
         # 3. ungated stress under the race detector + serial comparison + linearizability of recorded histories
         modes = ["cacheon", "cacheoff", "autoreload", "smallattr"]
         rounds = 2 if tier == "quick" else 12
+        deadlocked = False
         for rnd in range(rounds):
+            if deadlocked:
+                break
             for mode in modes:
                 s = seed * 1000 + rnd
                 obs = scratch.path("events-%s-%d.ndjson" % (mode, rnd))
                 pool = scratch.path("pool-%s-%d.ndjson" % (mode, rnd))
-                env = dict(os.environ, GORACE="halt_on_error=0", VERIF_POOL_TRACE=pool)
-                p = subprocess.run(["timeout", "300", race_harness, "stress", "-seed", str(s), "-g", "8", "-k", "60" if tier == "quick" else "150",
+                env = dict(os.environ, GORACE="halt_on_error=0")
+                if rnd % 2 == 0:
+                    # (every other round: the recording serialises the pool traffic, which hides races from the race detector)
+                    env["VERIF_POOL_TRACE"] = pool
+                p = subprocess.run(["timeout", "150", race_harness, "stress", "-seed", str(s), "-g", "8", "-k", "60" if tier == "quick" else "150",
                                     "-mode", mode, "-obs", obs], capture_output=True, text=True, env=env)
                 summary = None
                 for l in p.stdout.splitlines():
@@ -111,6 +117,14 @@ def run(prop, tier, seed, opts):
                         summary = json.loads(l)
                 races = twig_races(p.stderr)
                 fatal = [l for l in p.stderr.splitlines() if l.startswith("fatal error:") or l.startswith("panic:")]
+                if summary is None and not races and not fatal and p.returncode == 124:
+                    # 480 (1200) calls that normally take a second or two did not come back within 150 s: some call waits for ever
+                    path = save("deadlock", {"property": "C02", "mode": mode, "seed": s, "cmd": "harness(-race) stress -seed %d -mode %s" % (s, mode),
+                                             "what": "the stress run did not terminate within 150 s"})
+                    violations.append("VIOLATION property=C02 replay=%s" % path)
+                    V.log("  stress run did not terminate (mode %s): calls wait for each other for ever" % mode)
+                    deadlocked = True
+                    break
                 if summary is None and not races and not fatal:
                     raise V.Broken("stress run gave no summary (rc=%s): %s" % (p.returncode, p.stderr[-1500:]))
                 if fatal:
